@@ -446,3 +446,50 @@ def rule_default_visibility(ctx: Ctx, out: Collector) -> None:
                     props={'C03', 'C09', 'C11'})
     if n < 4:
         raise AnalysisError(f'only {n} storage read accessors found (ST-2 anchors vanished)')
+
+
+def rule_contained_failures(ctx: Ctx, out: Collector) -> None:
+    """OO-8: the error gate of a sub-dag (has-subgraph-error) does not count a failure that an inner one-of has already
+    contained.  World: candidate A of an inner one-of H failed (its exception is stored as a value), H was resolved by
+    a later candidate and holds a value, the consumer N of H holds a value; the sub-dag of an outer candidate Y contains
+    A, H, N (A was started, so the view shows it).  The gate must be negative: Y's inputs are all fine."""
+    units = ctx.has_error_functions()
+    if not units:
+        raise AnalysisError('no has-subgraph-error function found (OO-8 anchor vanished)')
+    mgr_cls = ctx.manager_class()
+    for unit in units:
+        if unit.cls is not mgr_cls:
+            continue
+        cons = f'{unit.module.name}::{unit.qualname}::a failure contained by a resolved inner one-of is not a failure of the enclosing sub-dag'
+
+        def run(oracle: Oracle):
+            contents = {'node_results': {'A': ('visible', value_token(ctx.p, 'EXC')), 'B': ('visible', 1), 'H': ('visible', 1),
+                                         'N': ('visible', 1)},
+                        'processed_nodes': {'A': ('visible', None), 'B': ('visible', None), 'H': ('visible', None), 'N': ('visible', None)}}
+            mgr, storage, adag = _abstract_world(ctx, contents, dag_nodes=('I', 'A', 'H', 'N', 'Y'), dest='Y')
+            nodes = {'I': {}, 'A': {'is_oneof_child': True}, 'B': {'is_oneof_child': True},
+                     'H': {'is_oneof_head': True, 'oneof_nodes': ['A', 'B']}, 'N': {}, 'Y': {'is_oneof_child': True}}
+            edges = {('I', 'A'): {'kwarg_name': 'num'}, ('I', 'B'): {'kwarg_name': 'num'}, ('A', 'H'): {}, ('B', 'H'): {}, ('I', 'H'): {},
+                     ('H', 'N'): {'kwarg_name': 'v'}, ('N', 'Y'): {'kwarg_name': 'v'}}
+            graph = AObj(('ext', 'networkx.DiGraph'), {'nodes': nodes, 'edges': edges})
+            mgr.attrs['dag'].attrs['graph'] = graph
+            adag.attrs['nodes'] = {k: nodes[k] for k in ('I', 'A', 'H', 'N', 'Y')}
+            adag.attrs['edges'] = {k: v for k, v in edges.items() if k[0] in adag.attrs['nodes'] and k[1] in adag.attrs['nodes']}
+            adag.attrs['is_oneof'] = True
+            for name, (ann, default) in mgr_cls.fields.items():
+                t = ctx.p.ann_to_type(ann, mgr_cls.module) if ann is not None else None
+                if t and t[0] == 'seq':
+                    mgr.attrs[name] = {'A', 'B', 'Y'}            # started candidates
+            interp = Interp(ctx.p, oracle)
+            return interp.truth(interp.call_unit(unit, [adag], {}, mgr, None))
+
+        outs = enumerate_outcomes(run)
+        vals = sorted({o[1] if o[0] == 'value' else f'raises {o[1]}' for o in outs}, key=str)
+        if vals == [False]:
+            out.ok('OO-8', cons, ctx.p.loc(unit, unit.node), 'negative for a sub-dag whose only failed node lost an inner one-of that was resolved')
+        else:
+            out.bad('OO-8', cons, ctx.p.loc(unit, unit.node),
+                    f'the error gate is {vals} for a sub-dag that merely contains a losing candidate of an inner one-of which was '
+                    f'resolved by a later candidate: an outer candidate that consumes the inner one-of\'s consumer is rejected '
+                    f'although all of its inputs succeeded (the run fails with OneOfDoesNotHaveResultError or falls back needlessly)',
+                    props={'C10'})
